@@ -24,7 +24,8 @@ namespace nmtools::utils
             // to allow properly compare empty with empty
             auto same_null = has_left == has_right;
             auto equal = same_null;
-            if (same_null == true) {
+            // two empty optionals are equal; the values are compared (and read) only when both are present
+            if (has_left && has_right) {
                 equal = apply_isclose(*left,*right);
             }
             return equal;
